@@ -2,14 +2,16 @@
     Statements are in VekProofs.C13_spec; programs are regenerated from /repo by symx. *)
 From VekLib Require Import Ops ROps LinAlg RLin.
 From VekLib Require Import MachineInt.
-From VekProofs Require Import C13_spec C13_proofs C13_rect C13_int.
+From VekProofs Require Import C13_spec C13_proofs C13_rect C13_int C13_misc.
 
 Theorem C13_aabr : C13_aabr_stmt. Proof. exact C13_proofs.C13_aabr. Qed.
 Theorem C13_aabb : C13_aabb_stmt. Proof. exact C13_proofs.C13_aabb. Qed.
 Theorem C13_rect : C13_rect_stmt. Proof. exact C13_rect.C13_rect. Qed.
 Theorem C13_int : C13_int_stmt. Proof. exact C13_int.C13_int. Qed.
+Theorem C13_misc : C13_misc_stmt. Proof. exact C13_misc.C13_misc. Qed.
 
 Print Assumptions C13_aabr.
 Print Assumptions C13_aabb.
 Print Assumptions C13_rect.
 Print Assumptions C13_int.
+Print Assumptions C13_misc.
